@@ -140,9 +140,12 @@ def evaluate(res, ctx, name, ops, recs, err, rc, check_model=True, pid="C03", cl
         res.count("event:" + im["ev"].split(".")[0])
         what = "%s: crash before event %d (%s %s, during op %d `%s`)%s" % (
             name, im["k"], im["ev"], e["file"], i, ops[i], (" with %s cut to %d bytes" % (list(cut)[0], list(cut.values())[0])) if cut else "")
+        if im.get("rm"):
+            what += " with the removal of the leftover merge directory interrupted after unlinking " + ",".join(im["rm"])
+            res.count("images_partial_rmdir")
         if im.get("level2"):
             what += " then retry crashed at " + im["level2"]
-        replay = {"ops": ops, "crash_event": im["k"], "event": im["ev"], "cut": cut, "image": {k: v for k, v in im.items() if k != "files"}}
+        replay = {"ops": ops, "crash_event": im["k"], "event": im["ev"], "cut": cut, "removed": im.get("rm"), "image": {k: v for k, v in im.items() if k != "files"}}
         key = classify(im, ops) if classify else None
         if im["open"] != "ok":
             res.violation(what + ": Open failed with " + im["open"], replay, key=key)
@@ -164,6 +167,12 @@ def evaluate(res, ctx, name, ops, recs, err, rc, check_model=True, pid="C03", cl
             extra = dict(EXTRA_KEY)
             expect2 = dict(states[j])
             expect2.update(extra)
+            if "c2open" in im:
+                res.count("second_crash_images")
+                if im["c2open"] != "ok" or im.get("c2dump") != fmt_state(expect2):
+                    res.violation(what + ": after recovery, one more Put and a batch, a SECOND process death (no Close): Open -> %s, mapping %s, expected %s" % (
+                        im["c2open"], str(im.get("c2dump"))[:200], fmt_state(expect2)[:200]), replay, key=key)
+                    continue
             if im.get("victim"):
                 expect2.pop(bytes.fromhex(im["victim"]) if im["victim"] != "-" else b"", None)
                 if im.get("del") != "ok" or im.get("merge", "").split(" ")[0] not in ("ok", "err:mergeids"):
@@ -318,7 +327,7 @@ def workload(rng, io=0, kind="mixed", nsteps=14):
     return fixed, cfg
 
 
-def merge_workload(rng, io=0):
+def merge_workload(rng, io=0, double=None):
     """a history whose merge output spans several files, followed by the adopting restart (C07)"""
     fs = rng.choice([4096, 4096, 8192])
     cfg = {"fs": fs, "sync": rng.choice([0, 1]), "bps": 0, "idx": rng.choice([1, 2, 3]), "io": io, "shards": rng.choice([1, 4, 16])}
@@ -342,6 +351,14 @@ def merge_workload(rng, io=0):
     for _ in range(rng.choice([0, 2])):
         seed += 1
         ops.append("put %s p%d:%d" % (rng.choice(keys), seed, rng.choice([10, 1200])))
+    if (rng.random() < 0.4) if double is None else double:
+        # a SECOND Merge without a restart in between: it finds the finished, not yet adopted merge directory of the first one
+        # and has to get rid of it (directory removal is not atomic) before it starts over
+        ops.append("del " + keys[-1])
+        for k in keys[1:4]:
+            seed += 1
+            ops.append("put %s p%d:%d" % (k, seed, rng.choice([700, 1100])))
+        ops.append("merge")
     ops += ["close", engine.open_line("d", cfg), "put %s x01" % keys[3], "close"]
     return ops, cfg
 
